@@ -54,7 +54,7 @@ func c07Frame(c *sim.Ctx) (frame []byte, fm []ref.Field, valid bool) {
 	}
 	frame, fm = ref.Encode(a)
 	valid = true
-	if t.Bool(1, 4) {
+	if !giant && c.Run != c07ShortRuns && t.Bool(1, 4) { // (the two dedicated large frames stay as they are)
 		switch t.Int(5) {
 		case 4:
 			// the body ends early, right after one of its fields, with a truthful
